@@ -11,7 +11,7 @@ from .. import gen, build, mcase, monitors, oracles, refgeo as rg
 from ..mapmodel import MapModel
 
 ID = "C05"
-CASES = {"quick": 3000, "thorough": 300000}
+CASES = {"quick": 10000, "thorough": 300000}
 MIN_CASES_PER_SHARD = 50
 CASE_TIMEOUT = 40
 RULE = ("one case = generated map x trace (incl. observations beyond segment ends, on nodes, zero-length roads) x configuration (all families, "
@@ -99,7 +99,7 @@ def check_case(ctx, case):
 
 
 TECHNIQUE = "runtime monitoring: oracle over every state of the reported best path (configured cut-offs; exact-rational / vector nearest-point reference), incl. exact-threshold workload class"
-LEVEL_TEXT = ("3k (quick) / 300k (thorough) histories in both metrics; every state on every reported best path is checked against max_dist, "
+LEVEL_TEXT = ("{Q} (quick) / {T} (thorough) histories in both metrics; every state on every reported best path is checked against max_dist, "
               "max_dist_init, min_prob_norm, and every emitting state against the exact nearest point, relative position and distance. Thresholds "
               "equal to distances that really occur are a dedicated class. Held-on-observed.")
 LEVEL_NOTE = "Trusted: reference geometry. Only states ON the reported path are judged (that is what the property states); dropped candidates are C01's business."
